@@ -17,14 +17,33 @@ build() {
   # library is a path dependency, both tracked by cargo. The hook cfg is set in
   # gensim/.cargo/config.toml (rustflags = --cfg unic_locale_verif).
   if ! (cd "$GENSIM" && cargo build --release --offline --quiet 2>"$GENSIM/build.log"); then
-    echo "HARNESS-ERROR: the simulator does not build against /repo's working tree (see $GENSIM/build.log)" >&2
-    grep -E "^error" -A8 "$GENSIM/build.log" | head -60 >&2
-    exit 2
+    # The generators are compiled against wrappers of std::path::{Path, PathBuf} (file-system
+    # queries answered by the simulated file system). A program that uses a corner of the path API
+    # the wrappers lack must not cost the whole check: build again with the real path types
+    # (Path::exists and friends then ask the real tree, as before the wrappers existed).
+    cp "$GENSIM/build.log" "$GENSIM/build.first.log"
+    if (cd "$GENSIM" && cargo build --release --offline --quiet --no-default-features 2>"$GENSIM/build.log"); then
+      echo "note: the generators do not compile against the simulator's Path/PathBuf wrappers; built with the real path types (see $GENSIM/build.first.log)" >&2
+    else
+      echo "HARNESS-ERROR: the simulator does not build against /repo's working tree (see $GENSIM/build.log)" >&2
+      grep -E "^error" -A8 "$GENSIM/build.log" | head -60 >&2
+      exit 2
+    fi
   fi
-  # the real generator binaries (no hook cfg, no seam) for the fidelity cross-check; a failure to
-  # build them is not fatal here: the simulator has already compiled the same sources
-  (cd /repo/unic-langid-impl && CARGO_TARGET_DIR="$GENSIM/target/realbins" cargo build --offline --quiet --features binary --bins 2>>"$GENSIM/build.log") || \
-    echo "note: real generator binaries not built; fidelity cross-check will be skipped" >&2
+  # the real generator binaries (no hook cfg, no seam) for the fidelity cross-check, built from and
+  # run in a scratch copy of /repo's working tree under gensim/target (never in /repo itself: what
+  # a generator leaves on disk must not reach the tree the checks read). A failure to build them is
+  # not fatal here: the simulator has already compiled the same sources.
+  REALWS="$GENSIM/target/realws"
+  mkdir -p "$REALWS"
+  # never run binaries of an earlier tree: if this build fails there are none
+  rm -f "$GENSIM/target/realbins/debug/generate_layout" "$GENSIM/target/realbins/debug/generate_likelysubtags"
+  if rsync -a --delete --delete-excluded --exclude /target --exclude /.git /repo/ "$REALWS/" 2>>"$GENSIM/build.log"; then
+    (cd "$REALWS/unic-langid-impl" && CARGO_TARGET_DIR="$GENSIM/target/realbins" cargo build --offline --quiet --features binary --bins 2>>"$GENSIM/build.log") || \
+      echo "note: real generator binaries not built; fidelity cross-check will be skipped" >&2
+  else
+    echo "note: no scratch copy of the repository; fidelity cross-check will be skipped" >&2
+  fi
 }
 
 case "${1:-}" in
@@ -50,7 +69,7 @@ case "${1:-}" in
         [ "$1" = thorough ] && tier=thorough
         exec "$BIN" check --tier "$tier" --seed "${VERIF_SEED:-1}" \
           --evidence "$ROOT/evidence/C18.json" --replay-dir "$ROOT/replays" --known "$ROOT/KNOWN_FINDINGS.json" \
-          --real-bins "$GENSIM/target/realbins/debug"
+          --real-bins "$GENSIM/target/realbins/debug" --real-cwd "$GENSIM/target/realws/unic-langid-impl"
         ;;
       *) echo "usage: ./run.sh C18 quick|thorough|--replay <file>" >&2; exit 2 ;;
     esac
